@@ -1003,6 +1003,9 @@ class Interp:
         if isinstance(t, ast.Name):
             if not getattr(self, "_in_store_hook", False) and t.id in ctx.contract.params and not ctx.spec_mode:
                 pass
+            ah = getattr(self.e, "assign_hook", None)
+            if ah is not None and not ctx.spec_mode:
+                v = ah(self, t.id, v)  # may replace a value by a literal it is PROVED equal to (never adds a fact)
             ctx.env[t.id] = self.named(v, t.id)
         elif isinstance(t, (ast.Tuple, ast.List)):
             items = self.unpack(v, len(t.elts))
@@ -1837,6 +1840,8 @@ class Interp:
                         return self.e.intrinsics[key](self, *args, **kwargs)
                     if key in self.e.contracts:
                         c = self.e.contracts[key]
+                        if not isinstance(c, Contract):
+                            return self.call_contract(key, args, kwargs)
                         first = list(c.params)[0] if c.params else None
                         if first in ("cls", "self"):
                             return self.call_contract(key, [recv] + args, kwargs)
